@@ -109,6 +109,10 @@ pub struct SecondaryStorage {
 
     /// Indexes of the current storage engine
     indexes: Mutex<InMemoryIndexes>,
+
+    /// Serializes CREATE TABLE and DROP TABLE: each of them checks the catalog, writes the
+    /// manifest and updates the catalog, which must not interleave with another one.
+    ddl_lock: Mutex<()>,
 }
 
 impl SecondaryStorage {
